@@ -44,6 +44,8 @@ pub fn pure_cmd(name: &str, args: &[Sx]) -> Option<Sx> {
             let got = package.summary_info().creation_time().unwrap();
             Some(Sx::I(ns_of_system_time(got)))
         }
+        ("lang_from_tag", [t]) => Some(Sx::I(msi::Language::from_tag(&t.as_string()).code() as i128)),
+        ("lang_tag", [c]) => Some(Sx::string(msi::Language::from_code(c.as_int() as u16).tag())),
         _ => None,
     }
 }
